@@ -504,6 +504,42 @@ def contentRangeText (b e n : Nat) : Bytes :=
 
 def contentRangeStar (n : Nat) : Bytes := [98, 121, 116, 101, 115, 32, 42, 47] ++ utoa n
 
+/-! ## `Socket_::write` / `Socket_::read` (src/Socket.cpp): blocking loops over partial transfers
+
+The operating system's answers are a schedule: the k-th `send` accepts `clamp (sched k)` bytes of what it is offered, the
+k-th `read` returns `clamp (sched k)` of the bytes that are there (at least one byte, at most what is asked / present;
+an exhausted schedule means "everything").  `read` at EOF returns 0. -/
+
+def clampXfer (want : Option Nat) (limit : Nat) : Nat :=
+  match want with
+  | some w => min (max 1 w) limit
+  | none => limit
+
+/-- `Socket_::write(data, size)`: returns (bytes handed to the OS in order, return value) -/
+def sockWriteLoop : Nat → List Nat → Bytes → Bytes × Nat → Bytes × Nat
+  | 0, _, _, acc => acc
+  | f + 1, sched, data, (out, s) =>
+    if data.isEmpty then (out, s) else
+    let n := clampXfer sched.head? data.length
+    let acc' := (out ++ data.take n, s + n)
+    if (data.drop n).isEmpty then acc' else sockWriteLoop f sched.tail (data.drop n) acc'
+
+def sockWrite (sched : List Nat) (data : Bytes) : Bytes × Nat :=
+  if data.isEmpty then ([], 0) else sockWriteLoop data.length sched data ([], 0)
+
+/-- `Socket_::read(data, size)` in blocking mode on the incoming stream `inc`: (bytes stored, return value, error flag) -/
+def sockReadLoop : Nat → List Nat → Bytes → Nat → Bytes → Bytes × Bool
+  | 0, _, _, _, out => (out, false)
+  | f + 1, sched, inc, size, out =>
+    if inc.isEmpty then (out, true)                 -- read() returned 0: SOCKET_BAD_RECV
+    else
+      let n := clampXfer sched.head? (min size inc.length)
+      let out' := out ++ inc.take n
+      if size - n = 0 then (out', false) else sockReadLoop f sched.tail (inc.drop n) (size - n) out'
+
+def sockRead (sched : List Nat) (inc : Bytes) (size : Nat) : Bytes × Bool :=
+  if size = 0 then ([], true) else sockReadLoop size sched inc size []     -- read(fd, buf, 0) returns 0: treated as an error
+
 /-! ## `HttpServer::serve(Socket)` around the handler, and `Http::request` around the exchange -/
 
 inductive Kind where
@@ -521,26 +557,37 @@ structure Plan where
   kind : Kind
 deriving Repr, Inhabited
 
-def sMethods : Bytes := "GET, POST, OPTIONS, PUT, DELETE, PATCH, HEAD".toUTF8.toList
-def sAllow : Bytes := "Allow".toUTF8.toList
-def sOrigin : Bytes := "Origin".toUTF8.toList
-def sACRH : Bytes := "Access-Control-Request-Headers".toUTF8.toList
-def sACAH : Bytes := "Access-Control-Allow-Headers".toUTF8.toList
-def sACAM : Bytes := "Access-Control-Allow-Methods".toUTF8.toList
-def sOPTIONS : Bytes := "OPTIONS".toUTF8.toList
-def sDate : Bytes := "Date".toUTF8.toList
-def sCacheControl : Bytes := "Cache-Control".toUTF8.toList
-def sCacheValue : Bytes := "max-age=60, public".toUTF8.toList
-def sAppJson : Bytes := "application/json".toUTF8.toList
-def sTextPlain : Bytes := "text/plain".toUTF8.toList
-def sBytesEq : Bytes := "bytes=".toUTF8.toList
+def sMethods : Bytes := [71, 69, 84, 44, 32, 80, 79, 83, 84, 44, 32, 79, 80, 84, 73, 79, 78, 83, 44, 32, 80, 85, 84, 44, 32, 68, 69, 76, 69, 84, 69, 44, 32, 80, 65, 84, 67, 72, 44, 32, 72, 69, 65, 68]
+def sAllow : Bytes := [65, 108, 108, 111, 119]
+def sOrigin : Bytes := [79, 114, 105, 103, 105, 110]
+def sACRH : Bytes := [65, 99, 99, 101, 115, 115, 45, 67, 111, 110, 116, 114, 111, 108, 45, 82, 101, 113, 117, 101, 115, 116, 45, 72, 101, 97, 100, 101, 114, 115]
+def sACAH : Bytes := [65, 99, 99, 101, 115, 115, 45, 67, 111, 110, 116, 114, 111, 108, 45, 65, 108, 108, 111, 119, 45, 72, 101, 97, 100, 101, 114, 115]
+def sACAM : Bytes := [65, 99, 99, 101, 115, 115, 45, 67, 111, 110, 116, 114, 111, 108, 45, 65, 108, 108, 111, 119, 45, 77, 101, 116, 104, 111, 100, 115]
+def sOPTIONS : Bytes := [79, 80, 84, 73, 79, 78, 83]
+def sDate : Bytes := [68, 97, 116, 101]
+def sCacheControl : Bytes := [67, 97, 99, 104, 101, 45, 67, 111, 110, 116, 114, 111, 108]
+def sCacheValue : Bytes := [109, 97, 120, 45, 97, 103, 101, 61, 54, 48, 44, 32, 112, 117, 98, 108, 105, 99]
+def sAppJson : Bytes := [97, 112, 112, 108, 105, 99, 97, 116, 105, 111, 110, 47, 106, 115, 111, 110]
+def sTextPlain : Bytes := [116, 101, 120, 116, 47, 112, 108, 97, 105, 110]
+def sBytesEq : Bytes := [98, 121, 116, 101, 115, 61]
 def sStar : Bytes := [42]
 
+/-- extension → mime type (the table of the HttpServer constructor) -/
 def mimeTable : List (Bytes × Bytes) :=
-  [("css", "text/css"), ("gif", "image/gif"), ("htm", "text/html"), ("html", "text/html"), ("jpeg", "image/jpeg"),
-   ("jpg", "image/jpeg"), ("js", "application/javascript"), ("json", "application/json"), ("png", "image/png"),
-   ("txt", "text/plain"), ("mp4", "video/mp4"), ("ogv", "video/ogg"), ("webm", "video/webm"), ("xml", "text/xml")].map
-    fun (a, b) => (a.toUTF8.toList, b.toUTF8.toList)
+  [([99, 115, 115], [116, 101, 120, 116, 47, 99, 115, 115]),
+   ([103, 105, 102], [105, 109, 97, 103, 101, 47, 103, 105, 102]),
+   ([104, 116, 109], [116, 101, 120, 116, 47, 104, 116, 109, 108]),
+   ([104, 116, 109, 108], [116, 101, 120, 116, 47, 104, 116, 109, 108]),
+   ([106, 112, 101, 103], [105, 109, 97, 103, 101, 47, 106, 112, 101, 103]),
+   ([106, 112, 103], [105, 109, 97, 103, 101, 47, 106, 112, 101, 103]),
+   ([106, 115], [97, 112, 112, 108, 105, 99, 97, 116, 105, 111, 110, 47, 106, 97, 118, 97, 115, 99, 114, 105, 112, 116]),
+   ([106, 115, 111, 110], [97, 112, 112, 108, 105, 99, 97, 116, 105, 111, 110, 47, 106, 115, 111, 110]),
+   ([112, 110, 103], [105, 109, 97, 103, 101, 47, 112, 110, 103]),
+   ([116, 120, 116], [116, 101, 120, 116, 47, 112, 108, 97, 105, 110]),
+   ([109, 112, 52], [118, 105, 100, 101, 111, 47, 109, 112, 52]),
+   ([111, 103, 118], [118, 105, 100, 101, 111, 47, 111, 103, 103]),
+   ([119, 101, 98, 109], [118, 105, 100, 101, 111, 47, 119, 101, 98, 109]),
+   ([120, 109, 108], [116, 101, 120, 116, 47, 120, 109, 108])]
 
 def mimeOf (ext : Bytes) : Bytes := (dicGet mimeTable ext).getD sTextPlain
 
